@@ -575,6 +575,19 @@ func (m *monitor) run(line string) string {
 			}
 		}
 		m.report(key, fmt.Sprintf("after %s: MinerPoolReader.GetCandidateMiners panics: %s", line, x))
+	} else if t[0] == "endblock" {
+		// right after a block end the committed state is the live one: the candidates the consensus layer is given must
+		// be exactly the registered validators that are not aborted and were applied before this height
+		want := []string{}
+		for _, r := range o.byID {
+			if r.typ == common.MinerTypeValidator && r.status != common.MinerStatusAbort && r.applyH < w.height {
+				want = append(want, fmt.Sprintf("%d/%d/%d", r.stake, r.applyH, r.typ))
+			}
+		}
+		sort.Strings(want)
+		if got := strings.SplitN(x, "|", 2)[0]; got != strings.Join(want, ",") {
+			m.report(m.classify("reader-candidates-disagree", false, false), fmt.Sprintf("after %s: GetCandidateMiners(%d) = [%s], registered eligible validators [%s]", line, w.height, got, strings.Join(want, ",")))
+		}
 	}
 	// O7 status is a function of the stake: what a fresh application of the same stake would give
 	m.checksBy["O7"]++
